@@ -383,6 +383,30 @@ func systematicPkgCases(id *int, profile, scratch string, rng *rand.Rand, tier s
 			c.Entries = []Entry{{Type: "tree", Src: "src/sub", Dst: d, Fi: Fi{Owner: "app", Group: "app"}, HasFi: true}}
 			add(c, smallTree(), "tree-fsowned")
 		}
+		// names beyond the fixed-width fields of the containers (tar: 100-byte name, 155-byte prefix, 100-byte link name;
+		// 32-byte owner / group: the longest name Linux allows) and names outside ASCII
+		{
+			seg := "a-directory-name-of-forty-characters-xxxx" // 41
+			long120 := "/opt/" + seg + "/" + seg + "/file-with-a-rather-long-name.txt"
+			long270 := "/opt/" + seg + "/" + seg + "/" + seg + "/" + seg + "/" + seg + "/" + seg + "/deep-file.txt"
+			c := baseCfg("longnamepkg")
+			c.Entries = []Entry{plain,
+				{Type: "file", Src: "src/app.conf", Dst: long120},
+				{Type: "config", Src: "src/extra.conf", Dst: long270},
+				{Type: "symlink", Src: long270, Dst: "/usr/bin/link-to-a-long-target"},
+				{Type: "symlink", Src: "../" + seg + "/" + seg + "/" + seg + "/relative-long-target", Dst: long120 + ".lnk"},
+				{Type: "dir", Dst: "/var/lib/" + seg + "/" + seg + "/" + seg, Fi: Fi{Owner: "an-owner-name-of-thirty-two-byte", Group: "a-group-name-of-thirty-two-bytes", Mode: 0o750}, HasFi: true},
+				{Type: "file", Src: "src/bin", Dst: "/usr/bin/owned", Fi: Fi{Owner: "an-owner-name-of-thirty-two-byte", Group: "g"}, HasFi: true}}
+			add(c, smallTree(), "long-names")
+			c2 := baseCfg("unicodepkg")
+			c2.Entries = []Entry{plain,
+				{Type: "file", Src: "src/app.conf", Dst: "/usr/share/unicodepkg/h\u00e9llo w\u00f6rld.txt"},
+				{Type: "file", Src: "src/extra.conf", Dst: "/usr/share/unicodepkg/\u0444\u0430\u0439\u043b/\u6587\u4ef6.conf"},
+				{Type: "symlink", Src: "h\u00e9llo w\u00f6rld.txt", Dst: "/usr/share/unicodepkg/li\u00f1k"},
+				{Type: "config", Src: "src/app.conf", Dst: "/etc/unicodepkg/caf\u00e9.conf"},
+				{Type: "dir", Dst: "/var/lib/unicodepkg/\u00fcber"}}
+			add(c2, smallTree(), "unicode-names")
+		}
 		{ // a changelog file that has no entries (yet): the package is still a well-formed archive
 			c := baseCfg("chlogemptypkg")
 			c.Changelog = []ChEntry{}
